@@ -257,6 +257,35 @@ impl C05 {
         }
     }
 
+    /// `<bin> <args>` under a CPU-time limit (RLIMIT_CPU: the process gets SIGXCPU once it has *computed* for that long,
+    /// however loaded the machine is) and a generous wall-clock watchdog whose firing decides nothing.
+    fn limited(bin: &str, args: &[&str], cpu_s: u32) -> Command {
+        let mut c = Command::new("bash");
+        c.arg("-c").arg(format!("ulimit -t {}; exec timeout {} \"$0\" \"$@\"", cpu_s, cpu_s * 40)).arg(bin);
+        for a in args {
+            c.arg(a);
+        }
+        c
+    }
+
+    /// how a limited run ended: None = normally
+    fn ending(o: &std::process::Output) -> Option<String> {
+        use std::os::unix::process::ExitStatusExt;
+        let err = String::from_utf8_lossy(&o.stderr);
+        let code = o.status.code();
+        if code == Some(0) {
+            None
+        } else if o.status.signal() == Some(24) || code == Some(128 + 24) {
+            Some("hang".to_string())
+        } else if code == Some(124) {
+            Some("watchdog".to_string())
+        } else if err.contains("panicked") {
+            Some("panic".to_string())
+        } else {
+            Some(format!("exit:{:?}:signal:{:?}", code, o.status.signal()))
+        }
+    }
+
     /// the shipped binary: file mode and the interactive prompt on stdin
     fn binary_case(&self, which: u64, quick: bool, st: &mut Stats) {
         let bin_s = format!("{}/harness/target-repo/release/nederlang", crate::sup::root());
@@ -273,16 +302,16 @@ impl C05 {
                 for (name, text) in &small {
                     let p = format!("{}/c05-{}-{}.nl", dir, std::process::id(), name);
                     let _ = std::fs::write(&p, text);
-                    let out = Command::new("timeout").arg("5").arg(bin).arg(&p).stdin(Stdio::null()).output();
+                    let out = Self::limited(bin, &[&p], 5).stdin(Stdio::null()).output();
                     let _ = std::fs::remove_file(&p);
                     st.evaluations += 1;
                     st.count("binary:file-runs");
                     if let Ok(o) = out {
                         let err = String::from_utf8_lossy(&o.stderr);
-                        let code = o.status.code();
-                        if code != Some(0) {
-                            let how = if code == Some(124) { "hang".to_string() } else if err.contains("panicked") { "panic".to_string() } else { format!("exit:{:?}", code) };
-                            st.violation(&format!("binary-file:{}:{}", name, how), format!("`nederlang <file>` ended with {:?}; stderr: {}", code, crate::obs::clip(&err, 300)), text);
+                        match Self::ending(&o) {
+                            None => {}
+                            Some(how) if how == "watchdog" => st.inconclusive(format!("`nederlang <file>` ({}) did not finish within the wall-clock watchdog without using 5 s of CPU time", name)),
+                            Some(how) => st.violation(&format!("binary-file:{}:{}", name, how), format!("`nederlang <file>` ended with {:?}; stderr: {}", o.status, crate::obs::clip(&err, 300)), text),
                         }
                     }
                 }
@@ -294,7 +323,7 @@ impl C05 {
                     if text.contains('\n') || (quick && k % 4 != 0) {
                         continue;
                     }
-                    let child = Command::new("timeout").arg("5").arg(bin).stdin(Stdio::piped()).stdout(Stdio::null()).stderr(Stdio::piped()).spawn();
+                    let child = Self::limited(bin, &[], 5).stdin(Stdio::piped()).stdout(Stdio::null()).stderr(Stdio::piped()).spawn();
                     let mut child = match child {
                         Ok(c) => c,
                         Err(_) => continue,
@@ -307,10 +336,10 @@ impl C05 {
                     st.count("binary:prompt-runs");
                     if let Ok(o) = child.wait_with_output() {
                         let err = String::from_utf8_lossy(&o.stderr);
-                        let code = o.status.code();
-                        if code != Some(0) {
-                            let how = if code == Some(124) { "hang".to_string() } else if err.contains("panicked") { "panic".to_string() } else { format!("exit:{:?}", code) };
-                            st.violation(&format!("binary-prompt:{}", how), format!("the prompt ended with {:?} after this line and end of input; stderr: {}", code, crate::obs::clip(&err, 300)), text);
+                        match Self::ending(&o) {
+                            None => {}
+                            Some(how) if how == "watchdog" => st.inconclusive("the prompt did not finish within the wall-clock watchdog without using 5 s of CPU time".to_string()),
+                            Some(how) => st.violation(&format!("binary-prompt:{}", how), format!("the prompt ended with {:?} after this line and end of input; stderr: {}", o.status, crate::obs::clip(&err, 300)), text),
                         }
                     }
                 }
@@ -318,12 +347,14 @@ impl C05 {
             _ => {
                 // examples through the binary
                 for f in ["fib-loop.nl", "voorbeeld.nl", "selectie-sorteer.nl", "juffen.nl"] {
-                    let out = Command::new("timeout").arg("60").arg(bin).arg(format!("/repo/examples/{}", f)).stdin(Stdio::null()).output();
+                    let out = Self::limited(bin, &[&format!("/repo/examples/{}", f)], 60).stdin(Stdio::null()).output();
                     st.evaluations += 1;
                     st.count("binary:example-runs");
                     if let Ok(o) = out {
-                        if o.status.code() != Some(0) {
-                            st.violation(&format!("binary-example:{}", f), format!("exit {:?}: {}", o.status.code(), String::from_utf8_lossy(&o.stderr)), f);
+                        match Self::ending(&o) {
+                            None => {}
+                            Some(how) if how == "watchdog" => st.inconclusive(format!("examples/{} did not finish within the wall-clock watchdog without using 60 s of CPU time", f)),
+                            Some(how) => st.violation(&format!("binary-example:{}:{}", f, how), format!("{:?}: {}", o.status, String::from_utf8_lossy(&o.stderr)), f),
                         }
                     }
                 }
